@@ -118,3 +118,87 @@ def find_assigns(fn: FuncInfo, name: str) -> List[ast.AST]:
                 if isinstance(t, ast.Name) and t.id == name:
                     out.append(n)
     return out
+
+
+# ------------------------------------------------------------------------------------------------
+# "None means default" discipline: an explicit falsy argument (0, 0.0, [], "") must not be replaced
+# by the default.  Every default site of a parameter whose default is None is evaluated for the
+# three-point domain {None, falsy-not-None, truthy}.
+class _Falsy:
+    def __bool__(self):
+        return False
+
+    def __len__(self):
+        return 0
+
+    def __repr__(self):
+        return "<falsy, not None>"
+
+
+class _Truthy:
+    def __bool__(self):
+        return True
+
+    def __len__(self):
+        return 1
+
+    def __repr__(self):
+        return "<truthy>"
+
+
+def none_default_sites(fn: FuncInfo):
+    """(param, node, test) for every default site of a parameter whose declared default is None."""
+    out = []
+    params = []
+    for p in fn.params:
+        d = fn.param_default(p)
+        if isinstance(d, ast.Constant) and d.value is None:
+            params.append(p)
+    if not params:
+        return out
+    for n in walk_local(fn.node):
+        if isinstance(n, ast.If):
+            names = {x.id for x in ast.walk(n.test) if isinstance(x, ast.Name)}
+            hit = [p for p in params if p in names]
+            if len(hit) == 1 and names <= {hit[0], "len", "isinstance", "bool", "list", "dict"}:
+                out.append((hit[0], n, n.test, "if"))
+        elif isinstance(n, ast.IfExp):
+            names = {x.id for x in ast.walk(n.test) if isinstance(x, ast.Name)}
+            hit = [p for p in params if p in names]
+            if len(hit) == 1 and names <= {hit[0], "len"}:
+                out.append((hit[0], n, n.test, "ifexp"))
+        elif isinstance(n, ast.BoolOp) and isinstance(n.op, ast.Or) and isinstance(n.values[0], ast.Name) and n.values[0].id in params:
+            par = parent(n)
+            if isinstance(par, (ast.Assign, ast.keyword, ast.Call, ast.Return)) or isinstance(par, ast.BinOp):
+                out.append((n.values[0].id, n, n.values[0], "or"))
+    return out
+
+
+def check_none_defaults(ctx, rule: str, fns: Sequence[FuncInfo]) -> int:
+    from ..absint import Evaluator, Unknown, EvalRaise
+
+    count = 0
+    for fn in fns:
+        for p, node, test, kind in none_default_sites(fn):
+            res = {}
+            undecided = False
+            for label, val in (("None", None), ("falsy", _Falsy()), ("truthy", _Truthy())):
+                try:
+                    res[label] = bool(Evaluator({p: val}).truth(test))
+                except (Unknown, EvalRaise):
+                    undecided = True
+            if undecided:
+                continue
+            count += 1
+            st = enclosing_stmt(node)
+            if kind == "or":
+                # ``p or default``: taken for None AND for every falsy value
+                ctx.bad(rule, fn, st, f"`{p} or <default>`: an explicit falsy argument ({p}=0, 0.0, [] ...) is silently replaced by the default")
+                continue
+            if res["None"] == res["falsy"] and res["None"] != res["truthy"]:
+                ctx.bad(rule, fn, st, f"the default for `{p}` is chosen by a truthiness test: an explicit falsy argument ({p}=0, 0.0, [] ...) is treated like None and silently replaced")
+            elif res["None"] != res["falsy"]:
+                ctx.ok(rule, fn, st, f"default for `{p}` only when it is None")
+            else:
+                ctx.ok(rule, fn, st, f"test on `{p}` does not distinguish None from other values", nontrivial=False)
+    return count
